@@ -26,8 +26,10 @@ Lookup(reg, plug, meth) ==
        IN IF cands = {} THEN "ConfigError"
           ELSE reg[CHOOSE i \in cands : \A j \in cands : i <= j].plugin.id
 \* the test universe shared by the bounded instance and the trace validator
-TestPlug(i) == CASE i = 1 -> [id |-> "P1", methods |-> {"a", "b", "s"}, discover |-> TRUE]
-                 [] i = 2 -> [id |-> "P2", methods |-> {"b", "c"}, discover |-> TRUE]
+\* ("q" and "k" are two spellings of one method name that differ in case only: the plug-ins themselves decide about the
+\*  case of METHOD names, the manager hands the name through as given)
+TestPlug(i) == CASE i = 1 -> [id |-> "P1", methods |-> {"a", "b", "s", "k"}, discover |-> TRUE]
+                 [] i = 2 -> [id |-> "P2", methods |-> {"b", "c", "q"}, discover |-> TRUE]
                  [] i = 3 -> [id |-> "P3", methods |-> {"a", "c"}, discover |-> FALSE]
 Lower(n) == CASE n = "X" -> "x" [] n = "Y" -> "y" [] n = "Z" -> "z" [] OTHER -> n
 IsSupported(reg, plug, meth) == Lookup(reg, plug, meth) # "ConfigError"
